@@ -83,9 +83,9 @@ func (c *CF12) P() *int64 { return &c.V }
 
 // compInfo describes a component name of the model.
 type compInfo struct {
-	name string
-	tp   reflect.Type
-	comp ecs.Comp
+	name  string
+	tp    reflect.Type
+	comp  ecs.Comp
 	isRel bool
 	// payload access from an unsafe pointer to the component
 	payload func(p any) *int64
